@@ -7,6 +7,8 @@ import (
 	"fmt"
 	"math/big"
 	"math/rand"
+	"reflect"
+	"sort"
 	"strings"
 
 	vmcommon "MODPATH"
@@ -195,6 +197,26 @@ func schedule(k int) map[string]map[string]uint64 {
 	}
 }
 
+// fillCost writes schedule k (or, with k < 0, recognisable garbage) into a GasCost object the way a
+// host that reuses one object would.
+func fillCost(g *vmcommon.GasCost, k int) {
+	var m map[string]map[string]uint64
+	if k >= 0 {
+		m = schedule(k)
+	}
+	fill := func(v reflect.Value, src map[string]uint64, junk uint64) {
+		for i := 0; i < v.NumField(); i++ {
+			if k < 0 {
+				v.Field(i).SetUint(junk + uint64(i))
+			} else {
+				v.Field(i).SetUint(src[v.Type().Field(i).Name])
+			}
+		}
+	}
+	fill(reflect.ValueOf(&g.BaseOperationCost).Elem(), m[vmcommon.BaseOperationCostString], 7_000_000_001)
+	fill(reflect.ValueOf(&g.BuiltInCost).Elem(), m[vmcommon.BuiltInCostString], 9_000_000_001)
+}
+
 func userAddr(t int, shard byte) []byte {
 	a := bytes.Repeat([]byte{byte(0x20 + t)}, 32)
 	a[0] = 'u'
@@ -259,10 +281,20 @@ func runExec(seed int64, r *rand.Rand, stay int, replay []uint8) runResult {
 		frozen        bool
 		kv            map[string][]byte
 	}
+	shortIDs := r.Intn(3) == 0
+	directReprice := r.Intn(4) == 0
 	ts := make([]*taskState, nexec)
 	for t := 0; t < nexec; t++ {
 		st := &taskState{user: userAddr(t, 0), sc: scAddr(t, 0), far: userAddr(t, 1), kv: map[string][]byte{},
 			tokF: []byte(fmt.Sprintf("FUN-%06x", 0xa00000+t)), tokN: []byte(fmt.Sprintf("SFT-%06x", 0xb00000+t))}
+		if shortIDs {
+			// identifiers of two to six bytes (the library does not check identifiers; a key buffer with
+			// spare room for a short identifier is shared where one without is not)
+			st.tokF, st.tokN = []byte(fmt.Sprintf("F%d", t)), []byte(fmt.Sprintf("S%d", t))
+			if t%2 == 1 {
+				st.tokF, st.tokN = []byte(fmt.Sprintf("FN-%02d", t)), []byte(fmt.Sprintf("SF-%02d", t))
+			}
+		}
 		ts[t] = st
 		tokF, tokN := st.tokF, st.tokN
 		u := acc.stores[t].get(st.user)
@@ -515,6 +547,7 @@ func runExec(seed int64, r *rand.Rand, stay int, replay []uint8) runResult {
 			}
 		}
 	}
+	sharedCost := &vmcommon.GasCost{}
 	rejected := 0
 	invalidAt := map[int]bool{}
 	for i := 1; i <= K; i++ {
@@ -531,7 +564,26 @@ func runExec(seed int64, r *rand.Rand, stay int, replay []uint8) runResult {
 				rejected++
 			}
 			c := change{start: simrt.Stamp()}
-			fac.GasScheduleChange(schedule(i))
+			if directReprice {
+				// the host tells every function object itself, always through the same GasCost object,
+				// which it overwrites as soon as a function has been told (each function must have
+				// taken its own copy under its lock)
+				keys := cont.Keys()
+				names := make([]string, 0, len(keys))
+				for n := range keys {
+					names = append(names, n)
+				}
+				sort.Strings(names)
+				for _, n := range names {
+					if f, errGet := cont.Get(n); errGet == nil {
+						fillCost(sharedCost, i)
+						f.SetNewGasConfig(sharedCost)
+						fillCost(sharedCost, -1)
+					}
+				}
+			} else {
+				fac.GasScheduleChange(schedule(i))
+			}
 			c.end = simrt.Stamp()
 			changes = append(changes, c)
 		}
